@@ -45,10 +45,123 @@ def nontrivial(res):
     return any(k == "LibraryShutdown" for v in P.fails(res).values() for (_, k) in v) or bool(P.outs(res, "x:"))
 
 
+# -- a server context with several endpoints (oracle only) ----------------------------------------------------------
+# `create_server_context(bind=<name resolving to several addresses>)` gives one context with several udp6 endpoints:
+# the shutdown is the context's, whichever endpoint the work came in through.
+
+def multi_cases():
+    out = []
+    for n in (1, 2, 3):
+        for busy in range(1 << n):                 # which endpoints have a handler running at shutdown
+            for client in (None, 0, n - 1):        # through which endpoint an own request is outstanding
+                out.append({"level": "multi-endpoint", "endpoints": n, "busy": [bool(busy >> i & 1) for i in range(n)],
+                            "client": client})
+    return out
+
+
+def run_multi(case):
+    import asyncio
+    import aiocoap
+    import netsim
+    import vloop
+    import wire as W
+
+    started, cancelled = [], []
+
+    class SlowSite:
+        async def render_to_pipe(self, pipe):
+            tag = bytes(pipe.request.payload).decode()
+            started.append(tag)
+            try:
+                await asyncio.get_running_loop().create_future()
+            except asyncio.CancelledError:
+                cancelled.append(tag)
+                raise
+
+        def get_resources_as_linkheader(self):
+            return []
+
+    n = case["endpoints"]
+
+    async def main(loop):
+        ctx, nets = await netsim.make_server_context_multi(loop, SlowSite(), n)
+        peer = netsim.peer(0)
+        for i, net in enumerate(nets):
+            if case["busy"][i]:
+                net.inject(W.build("CON", 1, 100 + i, bytes([0x70 + i]), [], b"pre%d" % i), peer)
+        fut = None
+        if case["client"] is not None:
+            msg = aiocoap.Message(code=aiocoap.GET, payload=b"own")
+            msg.remote = netsim.remote_for(nets[case["client"]], netsim.peer(1))
+            fut = ctx.request(msg, handle_blockwise=False).response
+        await asyncio.sleep(0.5)
+        res = {"started_before": sorted(started)}
+        try:
+            await asyncio.wait_for(ctx.shutdown(), 30)
+            res["shutdown"] = "returned"
+        except BaseException as e:
+            res["shutdown"] = "raised " + type(e).__name__
+        for _ in range(5):
+            await asyncio.sleep(0)
+        if fut is not None:
+            res["own"] = ("pending" if not fut.done() else "cancelled" if fut.cancelled() else
+                          type(fut.exception()).__name__ if fut.exception() else "response")
+        mark = [len(net.sent) for net in nets]
+        res["cancelled"] = sorted(cancelled)
+        # the context is gone: datagrams that still arrive (if anything still listens) and time passing
+        for i, net in enumerate(nets):
+            if not net.sock.closed:                     # (nothing arrives through a closed socket)
+                try:
+                    net.inject(W.build("CON", 1, 200 + i, bytes([0x50 + i]), [], b"post%d" % i), peer)
+                except Exception as e:
+                    res.setdefault("inject_errors", []).append(type(e).__name__)
+        await asyncio.sleep(300)
+        res["sent_after"] = [[d.hex() for (_, _, d) in net.sent[mark[i]:]] for i, net in enumerate(nets)]
+        res["started_after"] = sorted(t for t in started if t.startswith("post"))
+        res["sockets_closed"] = [net.sock.closed for net in nets]
+        return res
+
+    res, loop = vloop.run(main)
+    res["loop_errors"] = [repr(c.get("exception") or c.get("message")) for c in loop.exceptions]
+    return res
+
+
+def oracle_multi(case, res):
+    want = sorted("pre%d" % i for i, b in enumerate(case["busy"]) if b)
+    if res["started_before"] != want:
+        return f"multi-endpoint harness: handlers started before shutdown: {res['started_before']}, expected {want}"
+    if res["shutdown"] != "returned":
+        return f"shutdown of a context with {case['endpoints']} endpoints {res['shutdown']}"
+    if res["cancelled"] != want:
+        return (f"handlers-alive: handlers running at shutdown {want}, cancelled by it {res['cancelled']} "
+                f"({case['endpoints']} endpoints)")
+    if res.get("own") not in (None, "LibraryShutdown"):
+        return f"own request through endpoint {case['client']} after shutdown: {res['own']}"
+    if any(res["sent_after"]):
+        return (f"transmits-after-shutdown: endpoints sent {[len(x) for x in res['sent_after']]} datagrams after "
+                f"shutdown had returned (a request arriving on a still open socket is answered)")
+    if res["started_after"]:
+        return f"handlers {res['started_after']} were started after shutdown had returned"
+    if not all(res["sockets_closed"]):
+        return f"sockets-open: after shutdown the sockets of endpoints are closed: {res['sockets_closed']}"
+    if res["loop_errors"]:
+        return f"loop-exception: {res['loop_errors'][0]}"
+    return ""
+
+
 def run(env, rep):
     env.import_repo()
     P.check_scripts(env, rep, "C18", scripts(env), P.oracle_c18, nontrivial)
+    for case in multi_cases():
+        rep.case(case, nontrivial=any(case["busy"]) or case["client"] is not None)
+        rep.count("multi-endpoint:%d" % case["endpoints"])
+        verdict = oracle_multi(case, run_multi(case))
+        if verdict:
+            rep.oracle_fail(case, verdict, key="multi-endpoint:" + verdict.split(":")[0].split(" ")[0])
 
 
 def replay(env, case):
+    if case.get("level") == "multi-endpoint":
+        env.import_repo()
+        return oracle_multi(case, run_multi(case))
     return replay_with(env, case, P.oracle_c18)
